@@ -16,9 +16,10 @@ Definition mk_par (attr : str) (d : dtype) (e : export_t) (ce : option export_t)
   (dflt : option pyval) : acfg :=
   {| ac_attr := attr; ac_export := e; ac_cfg_export := ce; ac_group := []; ac_vis := 1;
      ac_body := BParam {| pc_dt := d; pc_dtdefault := PInt 0; pc_unit := []; pc_readonly := ro; pc_const_cls := cc;
-                          pc_const_cfg := None; pc_default := dflt |} |}.
+                          pc_const_cfg := None; pc_default := dflt; pc_hw := None |} |}.
 Definition mk_mod (accs : list acfg) : mcfg :=
-  {| mc_name := s_m; mc_export := true; mc_group := []; mc_vis := 1; mc_impl := []; mc_mro := []; mc_accs := accs |}.
+  {| mc_name := s_m; mc_export := true; mc_group := []; mc_vis := 1; mc_impl := []; mc_mro := []; mc_accs := accs;
+     mc_cfg_auto := [] |}.
 
 Definition state_of (n : list mcfg) : state :=
   match build n with Ok s => s | Err _ => {| s_mods := []; s_active := false; s_subs := [] |} end.
@@ -26,6 +27,7 @@ Definition state_of (n : list mcfg) : state :=
 Definition is_data (r : reply) : bool := match r with RpData _ => true | _ => false end.
 Definition built (n : list mcfg) : bool := match build n with Ok _ => true | Err _ => false end.
 Definition reply3 (x : state * reply * list upd) : reply := snd (fst x).
+Definition tok1 : N := 1%N.
 Definition upds3 (x : state * reply * list upd) : list upd := snd x.
 Definition state3 (x : state * reply * list upd) : state := fst (fst x).
 Definition desc_constant (d : option adesc) : option pyval :=
